@@ -14,6 +14,7 @@
      walk g reverse o x k           : ... by exactly k such steps (every node and edge step counts);
      shortest g reverse o x k       : k is the length of a shortest walk from o to x. *)
 From Agdb Require Import Bytes DbValue Graph DbModel Search Queries Revisions AdjOk TraverseSpec TraverseProofs.
+From Agdb Require Import GraphSim GraphProofs GraphSpec AdjOkWf.
 From Coq Require Import Sorting.Sorted.
 Open Scope Z_scope.
 
@@ -155,3 +156,28 @@ Print Assumptions C14_nonvacuous.
 Theorem C14_adj_okb_sound : forall g : graph, adj_okb g = true -> adj_ok g.
 Proof. exact adj_okb_sound. Qed.
 Print Assumptions C14_adj_okb_sound.
+
+(* ---- the hypothesis adj_ok is discharged by the graph invariant ---- *)
+
+(* wf (GraphSim.v: some abstract multigraph simulates the slot arrays) implies adj_ok ... *)
+Theorem C14_wf_adj_ok : forall g : graph, wf g -> adj_ok g.
+Proof. exact wf_adj_ok. Qed.
+Print Assumptions C14_wf_adj_ok.
+
+(* ... and wf holds after every history of graph operations from the empty graph (GraphSpec.grun_wf;
+   gop_ok: ids are passed with the sign of their kind, as DbImpl::graph_index dispatches), so every
+   such graph satisfies the hypothesis of the theorems above. *)
+Theorem C14_reachable_graphs_adj_ok :
+  forall (ops : list gop) (g : graph) (a : agraph),
+    Forall gop_ok ops -> grun graph_new a_empty ops = Some (g, a) -> adj_ok g.
+Proof. exact grun_adj_ok. Qed.
+Print Assumptions C14_reachable_graphs_adj_ok.
+
+Theorem C14_traversal_exact_wf :
+  forall (d : db) (a : algo) (reverse : bool) (origin : Z),
+    wf (gr d) -> graph_index (gr d) origin = true ->
+    exists r, graph_search rv_fixed d a reverse origin [] HDefault = Some (origin :: r) /\
+              NoDup (origin :: r) /\
+              (forall x, In x (origin :: r) <-> reach (gr d) reverse origin x).
+Proof. exact traversal_exact_wf. Qed.
+Print Assumptions C14_traversal_exact_wf.
